@@ -37,9 +37,9 @@ UpdShadow == << << <<"c", "S">>, <<"clear", "S">>, <<"b", "S">> >> >>
 \* "l.pop()" / "l.extend[]" / "d.pop(d)" switch the argument variants pop() without index, extend([]) and
 \* pop(k, default) on; they are not operation names of their own
 ListOps   == {"l.setitem", "l.delitem", "l.append", "l.insert", "l.extend", "l.remove", "l.pop", "l.clear",
-              "l.set_child", "l.remove_child", "l.rename_child", "l.pop()", "l.extend[]"}
+              "l.set_child", "l.remove_child", "l.rename_child", "l.pop()", "l.extend[]", "l.remove_node", "l.filter"}
 DictOps   == {"d.setitem", "d.setattr", "d.delitem", "d.delattr", "d.update", "d.setdefault", "d.pop", "d.popitem",
-              "d.clear", "d.set_child", "d.remove_child", "d.rename_child", "d.pop(d)"}
+              "d.clear", "d.set_child", "d.remove_child", "d.rename_child", "d.pop(d)", "d.remove_node", "d.filter"}
 AllOps    == ListOps \cup DictOps
 \* narrower alphabets for the longest sequences: remove_child(i) is _del(i), the same code path as del xs[i];
 \* pop() is pop(-1); d.set_child / d.remove_child / del d.k are _set / _del, the code path of d[k] = v / del d[k]
@@ -145,6 +145,12 @@ DPopitemA    == \E tp \in R(DT) : Do(DOp("d.popitem", tp, "", "", FALSE, <<>>))
 DClearA      == \E tp \in R(DT) : Do(DOp("d.clear", tp, "", "", FALSE, <<>>))
 DSetChild    == \E tp \in R(DT), key \in R(Keys), k \in R(ValKinds) : Do(DOp("d.set_child", tp, key, "", FALSE, <<V(k, nxt, "")>>))
 DRemoveChild == \E tp \in R(DT), key \in R(Keys) : Do(DOp("d.remove_child", tp, key, "", FALSE, <<>>))
+\* tree-level removal: root.ayns.remove_node(path of the container + one name), container.ayns.filter_nodes(condition)
+FiltCodes    == 0..3
+LRemoveNode  == \E tp \in R(LT), i \in R(Idx) : Do(LOp("l.remove_node", tp, i, 0, FALSE, <<>>))
+DRemoveNode  == \E tp \in R(DT), key \in R(Keys) : Do(DOp("d.remove_node", tp, key, "", FALSE, <<>>))
+LFilterA     == \E tp \in R(LT), c \in R(FiltCodes) : Do(LOp("l.filter", tp, c, 0, FALSE, <<>>))
+DFilterA     == \E tp \in R(DT), c \in R(FiltCodes) : Do(Op("d.filter", tp, c, 0, "", "", FALSE, <<>>))
 DRenameChild == \E tp \in R(DT), key \in R(Keys), k2 \in R(NewKeys) : Do(DOp("d.rename_child", tp, key, k2, FALSE, <<>>))
 
 Next == \/ Start
@@ -152,6 +158,7 @@ Next == \/ Start
         \/ LSetChild \/ LRemoveChild \/ LRenameChild
         \/ DSetItemA \/ DSetAttrA \/ DDelItemA \/ DDelAttrA \/ DUpdateA \/ DSetDefaultA \/ DPopA \/ DPopitemA
         \/ DClearA \/ DSetChild \/ DRemoveChild \/ DRenameChild
+        \/ LRemoveNode \/ DRemoveNode \/ LFilterA \/ DFilterA
 
 Spec == Init /\ [][Next]_vars
 
